@@ -591,6 +591,72 @@ class Analysis(object):
         return True
 
 
+def shared_default_mutations(repo):
+    """Typemap.defaults holds ONE list/dict object per field with a mutable default ([] / {}); every Typemap instance
+    starts out aliasing it (self.__dict__.update(self.defaults)).  Such a field may be re-bound, never mutated in
+    place: an in-place append/extend/update/subscript store through any typemap would change every typemap of this
+    and of every later run."""
+    bad = []
+    tm = ast.parse(open(os.path.join(repo, PKG, "typemap.py")).read())
+    fields = set()
+    for n in ast.walk(tm):
+        if isinstance(n, ast.ClassDef) and n.name == "Typemap":
+            for c in n.body:
+                if isinstance(c, ast.Assign) and isinstance(c.targets[0], ast.Name) and c.targets[0].id == "_order" \
+                        and isinstance(c.value, (ast.List, ast.Tuple)):
+                    for e in c.value.elts:
+                        if isinstance(e, ast.Tuple) and len(e.elts) == 2 and isinstance(e.elts[0], ast.Constant) \
+                                and isinstance(e.elts[1], (ast.List, ast.Dict)):
+                            fields.add(e.elts[0].value)
+    d = os.path.join(repo, PKG)
+    for fn in sorted(os.listdir(d)):
+        if not fn.endswith(".py"):
+            continue
+        tree = ast.parse(open(os.path.join(d, fn)).read())
+        for n in ast.walk(tree):
+            tgt = None
+            if isinstance(n, ast.Call) and isinstance(n.func, ast.Attribute) and n.func.attr in MUTATORS:
+                tgt = n.func.value
+            elif isinstance(n, (ast.Assign, ast.AugAssign)):
+                for t in (n.targets if isinstance(n, ast.Assign) else [n.target]):
+                    if isinstance(t, ast.Subscript):
+                        tgt = t.value
+                    elif isinstance(n, ast.AugAssign) and isinstance(t, ast.Attribute):
+                        tgt = t
+            if isinstance(tgt, ast.Attribute) and tgt.attr in fields:
+                bad.append({"file": fn, "line": n.lineno, "what": "in-place mutation of the shared default of Typemap.%s: %s"
+                            % (tgt.attr, ast.unparse(n)[:80])})
+    return sorted(fields), bad
+
+
+def output_dir_reads(repo):
+    """E3: the emitters only ever open files for writing and never look at what is already in the output directories"""
+    bad = []
+    d = os.path.join(repo, PKG)
+    for fn in sorted(os.listdir(d)):
+        if not fn.endswith(".py") or fn in ("main.py", "splicer.py"):
+            continue       # main.py reads the input files and searches splicer paths; splicer.py reads splicer files
+        tree = ast.parse(open(os.path.join(d, fn)).read())
+        main_guard = set()
+        for n in tree.body:
+            if isinstance(n, ast.If) and "__main__" in ast.unparse(n.test):
+                main_guard |= set(id(x) for x in ast.walk(n))
+        for n in ast.walk(tree):
+            if id(n) in main_guard or not isinstance(n, ast.Call):
+                continue
+            f = n.func
+            if isinstance(f, ast.Name) and f.id == "open":
+                mode = n.args[1] if len(n.args) > 1 else next((k.value for k in n.keywords if k.arg == "mode"), None)
+                if not (isinstance(mode, ast.Constant) and mode.value == "w"):
+                    bad.append({"file": fn, "line": n.lineno, "what": "open() not for plain writing: %s" % ast.unparse(n)[:70]})
+            if isinstance(f, ast.Attribute) and f.attr in ("exists", "isfile", "isdir", "getmtime", "getsize", "stat", "listdir", "cmp",
+                                                           "scandir", "walk", "read", "readlines"):
+                base = ast.unparse(f.value)
+                if base in ("os.path", "os", "filecmp") or f.attr in ("read", "readlines"):
+                    bad.append({"file": fn, "line": n.lineno, "what": "reads the file system: %s" % ast.unparse(n)[:70]})
+    return bad
+
+
 def impure_sources(repo):
     """E2: reads of wall-clock time, environment, host, random, process ids, directory listings in the package"""
     bad = []
@@ -620,8 +686,14 @@ def impure_sources(repo):
                 bad.append({"file": fn, "line": n.lineno, "what": "%s() call" % n.func.id})
             if isinstance(n, (ast.For, ast.comprehension)):
                 it = n.iter
-                if isinstance(it, ast.Call) and isinstance(it.func, ast.Name) and it.func.id == "set":
-                    bad.append({"file": fn, "line": getattr(n, "lineno", it.lineno), "what": "iteration over a set"})
-                if isinstance(it, ast.Set):
-                    bad.append({"file": fn, "line": it.lineno, "what": "iteration over a set literal"})
+                if isinstance(it, ast.Call) and isinstance(it.func, ast.Name) and it.func.id == "sorted":
+                    continue
+                for x in ast.walk(it):
+                    if (isinstance(x, ast.Call) and isinstance(x.func, ast.Name) and x.func.id in ("set", "frozenset")) \
+                            or isinstance(x, (ast.Set, ast.SetComp)) \
+                            or (isinstance(x, ast.Call) and isinstance(x.func, ast.Attribute) and x.func.attr in (
+                                "intersection", "union", "difference", "symmetric_difference")):
+                        bad.append({"file": fn, "line": getattr(n, "lineno", it.lineno),
+                                    "what": "iteration in set order (hash-seed dependent): %s" % ast.unparse(it)[:60]})
+                        break
     return bad
